@@ -39,7 +39,7 @@ CONFIG = {
 }
 REQUIRED = ['pdf_rows_checked', 'logpdf_rows_checked', 'rows_zero_density', 'rows_positive_density', 'rows_boundary',
             'rvs_rows_checked', 'grad_points_checked', 'shape_checks', 'sel_sorted', 'sel_perm', 'sel_subset',
-            'specs_hierarchical', 'specs_custom_dist', 'rows_where_the_product_underflows_but_no_conditional_is_zero']
+            'specs_hierarchical', 'specs_custom_dist', 'grad_integer_typed_points_checked', 'rows_where_the_product_underflows_but_no_conditional_is_zero']
 
 NPTS = 40
 MARGIN = 0.05          # interior margin for gradient points (>= 100 x the reference step)
@@ -520,6 +520,21 @@ def run_case(ctx, case):
         if not np.all(np.abs(g - gref) <= 1e-4 * np.abs(gref) + 1e-5):
             raise Violation('gradient-value', 'gradient_logpdf=%s but the derivative of the reference log-density is %s' % (g, gref), wit(i))
         ctx.event('grad_points_checked')
+        # the same at an integer-TYPED point (np.array([0, 1]), a plain int): the nearest lattice point, when it is interior too
+        xi = np.round(x)
+        nb = np.vstack([xi + s_ * MARGIN * np.eye(dim)[j] for j in range(dim) for s_ in (-1.0, 1.0)] + [xi])
+        lp_i = ref_logpdf_rows(spec, order, nb)
+        if np.all(np.isfinite(lp_i)) and lp_i[-1] > -400:
+            gi = np.asarray(P.gradient_logpdf(xi.astype(np.int64) if dim > 1 else int(xi[0]), **kw), dtype=float).reshape(-1)
+            gri = np.zeros(dim)
+            for j in range(dim):
+                e = np.eye(dim)[j]
+                f = ref_logpdf_rows(spec, order, np.vstack([xi + 2 * HREF * e, xi + HREF * e, xi - HREF * e, xi - 2 * HREF * e]))
+                gri[j] = (-f[0] + 8 * f[1] - 8 * f[2] + f[3]) / (12 * HREF)
+            if gi.size != dim or not np.all(np.abs(gi - gri) <= 1e-4 * np.abs(gri) + 1e-5):
+                raise Violation('gradient-value', 'gradient_logpdf at the integer-typed point %s is %s but the derivative of the reference '
+                                'log-density there is %s' % (xi.astype(np.int64), gi, gri), wit(i))
+            ctx.event('grad_integer_typed_points_checked')
     if len(inter) >= 2:
         G = np.asarray(P.gradient_logpdf(X[inter] if dim > 1 else X[inter], **kw), dtype=float)
         if G.size != len(inter) * dim:
